@@ -474,6 +474,31 @@ def _escaping_write(eng, fi, node):
     return out
 
 
+IDENTITY_FIELDS = ("descriptor", "descriptor_id", "bond_type")
+
+
+def identity_writers(eng, res, rule="R-IDENTITY-WRITERS"):
+    """What a descriptor *is* — symbol, id, bond order: the three things compatibility compares — is fixed by the parser.
+    Nothing else writes these fields, not even on a generation-owned copy: a copy whose id was overwritten passes a
+    compatibility test its original would fail."""
+    res.doc(rule, "symbol, id and bond order of a descriptor are written by BondDescriptor.__init__ only")
+    n = 0
+    bad = []
+    for fi in eng.prog.all_functions():
+        for node in own_nodes(fi.node):
+            if isinstance(node, ast.Attribute) and node.attr in IDENTITY_FIELDS and isinstance(node.ctx, (ast.Store, ast.Del)):
+                n += 1
+                owner = fi.outermost().qualname
+                if owner != "bond.BondDescriptor.__init__":
+                    # same-named fields of other classes: only a receiver that can be a descriptor counts
+                    recv_cls = fi.outermost().enclosing_class()
+                    if isinstance(node.value, ast.Name) and node.value.id == "self" and recv_cls is not None and recv_cls.name != "BondDescriptor":
+                        continue
+                    bad.append(f"{fi.qualname} line {node.lineno}: {src(node)} = …")
+    res.ob(rule, "bond.BondDescriptor", "identity-fields-parser-only", "symbol / id / bond order of a descriptor are never re-written after parsing", "-", not bad, "; ".join(bad[:3]))
+    return n
+
+
 def index_writers(eng, res, rule="R-INDEX-WRITERS"):
     """Who may write a descriptor's atom / node index: the parser (once) and the attachment shift. Any other writer
     changes which atom a bond will be made to behind the back of the rules above."""
@@ -534,6 +559,8 @@ def check(eng, res):
     res.floor("R-LOCKSTEP", nl, 2)
     nw = index_writers(eng, res)
     res.floor("R-INDEX-WRITERS", nw, 4)
+    ni = identity_writers(eng, res)
+    res.floor("R-IDENTITY-WRITERS", ni, 5)
     from . import c02
 
     sub2 = type(res)(res.prop)
